@@ -21,6 +21,9 @@ func verifC13_response() {
 		opts.Subprotocols = append(opts.Subprotocols, vString("asked"))
 	}
 	key := vString("key")
+	if vParam("symKey", 1) == 0 {
+		key = "dGhlIHNhbXBsZSBub25jZQ==" // concrete key: SHA-1/base64 run for real, counterexamples replay natively
+	}
 	resp := &http.Response{StatusCode: vInt("status", 100, 599), Header: http.Header{}}
 	conn := vSymValues("connection", 1)
 	upg := []string{"websocket"}
@@ -28,6 +31,9 @@ func verifC13_response() {
 		upg = vSymValues("upgrade", 1)
 	}
 	acc := vSymValues("accept", 1)
+	if vParam("symKey", 1) == 0 && vChoose("rightAccept", 2) == 1 {
+		acc = []string{vRefAcceptKey(key)}
+	}
 	proto := vSymValues("proto", 1)
 	var ext []string
 	if vParam("symExt", 1) == 1 {
